@@ -2,8 +2,8 @@ CONSTANTS
     Eras = {"shelley", "allegra", "mary", "alonzo", "babbage", "conway", "dijkstra"}
     Seed = 1
     MaxCerts = 2
-    PerBagLegacy = 10
-    PerBagGov = 4
+    PerBagLegacy = 4
+    PerBagGov = 2
 INIT Init
 NEXT Next
 INVARIANT VariantSane
